@@ -1373,10 +1373,10 @@ def expand_enumerate_counters(rel, module):
     done = {}
     for lname, fn in list(module.funcs.items()):
         r = ref.get(rel + '::' + lname)
-        if not r or not r.get('for'):
+        if r is None:
             continue
         ref_for = {}
-        for it, tg in r['for']:
+        for it, tg in r.get('for', []):
             ref_for.setdefault(it, []).append(tg)
         nstores = {}
         for n in ast.walk(fn):
@@ -1394,7 +1394,9 @@ def expand_enumerate_counters(rel, module):
                         continue
                     inner_it = U(st.iter.args[0])
                     elem = st.target.elts[1]
-                    if inner_it not in ref_for or U(elem) not in ref_for[inner_it]:
+                    sentinel = isinstance(st.iter.args[0], ast.Call) and isinstance(st.iter.args[0].func, ast.Name) \
+                        and st.iter.args[0].func.id == 'iter' and len(st.iter.args[0].args) == 2
+                    if not sentinel and (inner_it not in ref_for or U(elem) not in ref_for[inner_it]):
                         continue
                     start = None
                     if len(st.iter.args) == 2:
@@ -1407,6 +1409,23 @@ def expand_enumerate_counters(rel, module):
                     if not isinstance(start, ast.Constant) or not isinstance(start.value, int):
                         continue
                     i = st.target.elts[0].id
+                    if nstores.get(i, 0) == 2:
+                        # S28b: the counter was initialised to start-1 just before: `i = c` ... `for i, x in enumerate(X, c+1)` is the
+                        # counting loop `i = c; for x in X: i += 1; ...` (same value inside the body and after the loop, also when X is empty)
+                        kpos = [j for j, x in enumerate(blk) if x is st][0]
+                        prior = [b for b in blk[:kpos] if isinstance(b, ast.Assign) and len(b.targets) == 1 and isinstance(b.targets[0], ast.Name)
+                                 and b.targets[0].id == i and isinstance(b.value, ast.Constant) and isinstance(b.value.value, int)]
+                        reads_between = any(isinstance(x, ast.Name) and x.id == i for b in blk[:kpos] if prior and b.lineno > prior[-1].lineno
+                                            for x in ast.walk(b))
+                        if len(prior) == 1 and prior[0].value.value + 1 == start.value and not reads_between \
+                                and not any(isinstance(x, ast.Continue) for b in st.body for x in ast.walk(b)):
+                            first = ast.AugAssign(target=ast.Name(id=i, ctx=ast.Store()), op=ast.Add(), value=ast.Constant(value=1))
+                            _relocate(first, st.body[0])
+                            st.body = [first] + st.body
+                            st.target = elem
+                            st.iter = st.iter.args[0]
+                            done.setdefault(lname, []).append(i)
+                        continue
                     if nstores.get(i, 0) != 1:
                         continue
 
